@@ -4,3 +4,4 @@ from .data.profiles.temperature import Rodgers2000
 from .data.profiles.temperature import NPoint
 from .data.profiles.temperature import TemperatureProfile
 from .data.profiles.temperature import TemperatureFile
+from .data.profiles.temperature.temparray import TemperatureArray
